@@ -898,6 +898,22 @@ package mast
 //@ requires nn (> dc 0)
 //@ ensures reset [C06 C07] (and (isNil (diffState.addedLink H dc)) (isNil (diffState.removedLink H dc)) (isNil (diffState.curKey H dc)) (isNil (diffState.addedValue H dc)) (isNil (diffState.removedValue H dc)) (not (diffState.hasAdd H dc)) (not (diffState.hasRemove H dc)))
 
+// defaults of a new tree (C14): branch factor 16, the compact binary node format, empty
+//@ func NewRoot
+//@ tags C14
+//@ modifies W Root.*@fresh Box.Bytes@fresh
+//@ ensures fresh [C14] (and (> result W0) (= (Root.Link H result) 0) (= (Root.Size H result) 0) (= (Root.Height H result) 0))
+//@ assumption A-formats: the package variables V1Marshaler and V115Binary still hold the names they are initialised with ("v1marshaler", "v1.1.5binary"); nothing in the package assigns them
+//@ requires formats [C14] (= (G.V115Binary H) "v1.1.5binary")
+//@ ensures defaults [C14] (=> (= remoteOptions 0) (and (= (Root.BranchFactor H result) 16) (= (Root.NodeFormat H result) "v1.1.5binary")))
+//@ ensures chosen [C14] (=> (and (not (= remoteOptions 0)) (> (CreateRemoteOptions.BranchFactor H0 remoteOptions) 0)) (= (Root.BranchFactor H result) (CreateRemoteOptions.BranchFactor H0 remoteOptions)))
+//@ ensures chosenformat [C14] (=> (not (= remoteOptions 0)) (= (Root.NodeFormat H result) (ite (= (CreateRemoteOptions.NodeFormat H0 remoteOptions) "") "v1.1.5binary" (CreateRemoteOptions.NodeFormat H0 remoteOptions))))
+
+//@ func NewInMemory
+//@ tags C14
+//@ modifies W Arr.Any@fresh Node.*@fresh mastNode.*@fresh Box.Int@fresh
+//@ ensures defaults [C14] (and (= (S_Mast.branchFactor result) 16) (= (S_Mast.growAfterSize result) 16) (= (S_Mast.shrinkBelowSize result) 1) (= (S_Mast.size result) 0) (= (S_Mast.height result) 0) (isPtr (S_Mast.root result)))
+
 //@ func op
 //@ tags C06
 //@ pure
